@@ -65,7 +65,12 @@ Proof.
     exists l. rewrite cold_answer_reaching, El. split; [reflexivity|assumption].
 Qed.
 
-(* the aliasing defect of the code as it is: a caller that mutates a returned set changes later answers *)
+(* the code as it is (immutable returned sets): EVERY sequence, caller-side mutation attempts included *)
+Theorem cache_coherent_code V E C qs : qrun V E C code_alias cache0 qs = map (cold_answer V E C) qs.
+Proof. apply cache_coherent_all. left. reflexivity. Qed.
+
+(* the aliasing defect of the code before /repo a35dc8c (switch alias = true): a caller that mutates a
+   returned set changes later answers *)
 Definition alias_witness_V : list node := [0; 1]%N.
 Definition alias_witness_E : list edge := [(0, 1)]%N.
 Definition alias_witness_C : cond := {| c_map := fun v => v; c_edges := [(0, 1)]%N; c_topo := [0; 1]%N |}.
